@@ -1,6 +1,6 @@
 (* C13/ProofsKill.v — the destructors: what the deletion of a thread (with its cascade) and the
    destruction of an instance do to the pools, and that they keep the structural invariant. *)
-From Coq Require Import NArith List Bool Lia PeanoNat.
+From Coq Require Import NArith List Bool Lia PeanoNat Wf_nat Permutation.
 From Morfuse Require Import Base.Arr Base.ListX C13.Model C13.Spec C13.ProofsLib C13.ProofsAbs C13.ProofsInv.
 Import ListNotations.
 Local Open Scope N_scope.
@@ -152,4 +152,838 @@ Proof.
   assert (E : th (set_notify t None (set_waitfor p None s)) p = mkT (t_vm (th s p)) (t_state (th s p)) None (t_notify (th s p))).
   { rewrite th_set_notify, !th_set_waitfor. destruct (N.eqb_spec p t); [congruence|]. now rewrite N.eqb_refl. }
   rewrite E. prj. rewrite Hv, Hs. reflexivity.
+Qed.
+
+(* ---- the end of ~ScriptThread / ~Listener / Free of a dying thread (no cascade any more) -------- *)
+Definition anc (cl : N -> N) (s : st) (t : N) : Prop :=
+  forall x, In x (tpool s) -> t_vm (th s x) = false -> x <> t -> cl x < cl t /\ t_waitfor (th s x) = None.
+
+Definition ctl_eq (s s' : st) : Prop :=
+  stack s' = stack s /\ out s' = out s /\ scripts s' = scripts s /\ nextid s' = nextid s /\ nextscript s' = nextscript s /\
+  mtime s' = mtime s /\ scaled s' = scaled s /\ lastclk s' = lastclk s /\ startclk s' = startclk s /\ clock s' = clock s.
+Lemma ctl_eq_refl s : ctl_eq s s.
+Proof. repeat split. Qed.
+Lemma ctl_eq_trans s1 s2 s3 : ctl_eq s1 s2 -> ctl_eq s2 s3 -> ctl_eq s1 s3.
+Proof. unfold ctl_eq. intuition congruence. Qed.
+
+Definition hcount (s : st) : nat := length (filter (healthyb s) (tpool s)).
+
+(* ---- conservation: whatever leaves a pool enters the log of destroyed objects ----------------------- *)
+Definition Lcons (s s' : st) : Prop :=
+  Permutation (tlog s' ++ tpool s') (tlog s ++ tpool s) /\
+  Permutation (vlog s' ++ vpool s') (vlog s ++ vpool s) /\
+  Permutation (clog s' ++ cpool s') (clog s ++ cpool s).
+Lemma lcons_refl s : Lcons s s.
+Proof. repeat split; apply Permutation_refl. Qed.
+Lemma lcons_trans s1 s2 s3 : Lcons s1 s2 -> Lcons s2 s3 -> Lcons s1 s3.
+Proof. intros (A1 & A2 & A3) (B1 & B2 & B3). repeat split; eapply Permutation_trans; eauto. Qed.
+Lemma lcons_same s s' :
+  tlog s' = tlog s -> tpool s' = tpool s -> vlog s' = vlog s -> vpool s' = vpool s -> clog s' = clog s -> cpool s' = cpool s ->
+  Lcons s s'.
+Proof. intros E1 E2 E3 E4 E5 E6. unfold Lcons. rewrite E1, E2, E3, E4, E5, E6. repeat split; apply Permutation_refl. Qed.
+Lemma perm_free (t : N) log pool : NoDup pool -> In t pool -> Permutation ((t :: log) ++ remove t pool) (log ++ pool).
+Proof.
+  intros Hnd Hin. cbn [app]. apply Permutation_sym. apply Permutation_trans with (t :: remove t pool ++ log).
+  - apply Permutation_trans with (pool ++ log); [apply Permutation_app_comm|].
+    apply Permutation_trans with ((t :: remove t pool) ++ log); [|reflexivity].
+    apply Permutation_app_tail. apply NoDup_Permutation; [exact Hnd|constructor; [|now apply nodup_remove]|].
+    + intro Hx. apply in_remove in Hx. tauto.
+    + intro x. cbn [In]. rewrite in_remove. destruct (N.eq_dec x t) as [->|Hne]; [tauto|]. split; [tauto|]. intros [E|[Hx _]]; [congruence|exact Hx].
+  - constructor. apply Permutation_app_comm.
+Qed.
+
+(* every instance of the director's chain has a thread *)
+Definition NE (s : st) : Prop := forall c, In c (chain s) -> c_threads (clsof s c) <> [].
+
+Definition tailf (t : N) (s : st) : st := free_thread t (unreg_result t (nd_result t s)).
+
+Definition woken (s s' : st) (t x : N) : Prop :=
+  t_notify (th s t) = Some x /\ t_waitfor (th s x) = Some t /\ t_state (th s x) = TWaiting /\
+  th s' x = mkT (t_vm (th s x)) TTiming None (t_notify (th s x)).
+
+Record Tailpost (sc cl : N -> N) (t : N) (s s' : st) : Prop := {
+  tp_inv : Dinv sc cl s';
+  tp_flags : ub s' = ub s /\ oof s' = oof s;
+  tp_ctl : ctl_eq s s';
+  tp_tpool : tpool s' = remove t (tpool s);
+  tp_th : forall x, x <> t -> th s' x = th s x \/ woken s s' t x;
+  tp_vm : forall x, x <> t -> vmof s' x = vmof s x;
+  tp_vpool : vpool s' = match v_state (vmof s t) with VIdling => remove t (vpool s) | _ => vpool s end;
+  tp_cls : forall c, v_class (vmof s t) <> Some c -> clsof s' c = clsof s c /\ (In c (cpool s) -> In c (cpool s')) /\ (In c (chain s) -> In c (chain s'));
+  tp_cscript : forall c, c_script (clsof s' c) = c_script (clsof s c);
+  tp_cin : incl (cpool s') (cpool s) /\ incl (chain s') (chain s);
+  tp_chkeep : forall c, In c (cpool s') -> In c (chain s) -> In c (chain s');
+  tp_elems : forall e, In e (elems s') -> In e (elems s) \/ t_notify (th s t) = Some (fst e);
+  tp_cur : cur s' = match cur s with Some x => if x =? t then None else Some x | None => None end;
+  tp_ne : NE s -> NE s';
+  tp_log : Lcons s s' }.
+
+Lemma add_timing_fields t d s :
+  threads (add_timing t d s) = threads s /\ vms (add_timing t d s) = vms s /\ classes (add_timing t d s) = classes s /\
+  tpool (add_timing t d s) = tpool s /\ vpool (add_timing t d s) = vpool s /\ cpool (add_timing t d s) = cpool s /\
+  chain (add_timing t d s) = chain s /\ cur (add_timing t d s) = cur s /\
+  elems (add_timing t d s) = elems s ++ [(t, scaled s + d)] /\ ub (add_timing t d s) = ub s /\ oof (add_timing t d s) = oof s /\
+  ctl_eq s (add_timing t d s).
+Proof. unfold add_timing, ctl_eq. destruct (scaled s + d <=? mtime s); prj; repeat split; reflexivity. Qed.
+
+Lemma free_thread_flags t s : ub (free_thread t s) = ub s /\ oof (free_thread t s) = oof s /\ ctl_eq s (free_thread t s).
+Proof. unfold free_thread, ctl_eq. prj. destruct (cur s) as [x|]; [destruct (x =? t)|]; repeat split; reflexivity. Qed.
+
+Lemma nd_class_script t s c : c_script (clsof (nd_class t s) c) = c_script (clsof s c).
+Proof.
+  unfold nd_class. destruct (v_class (vmof s t)) as [c0|]; [|reflexivity].
+  destruct (remove t (c_threads (clsof s c0))).
+  - rewrite cls_destroy_empty, !cls_set_cthreads. destruct (N.eqb_spec c c0) as [->|_]; [rewrite N.eqb_refl|]; reflexivity.
+  - rewrite cls_set_cthreads. destruct (N.eqb_spec c c0) as [->|_]; reflexivity.
+Qed.
+Lemma nd_class_other t s c :
+  v_class (vmof s t) <> Some c ->
+  clsof (nd_class t s) c = clsof s c /\ (In c (cpool s) -> In c (cpool (nd_class t s))) /\ (In c (chain s) -> In c (chain (nd_class t s))).
+Proof.
+  intro Hc. unfold nd_class. destruct (v_class (vmof s t)) as [c0|]; [|repeat split; auto].
+  assert (Hne : c <> c0) by congruence.
+  destruct (remove t (c_threads (clsof s c0))).
+  - rewrite cls_destroy_empty, cpool_destroy_empty, chain_destroy_empty, !cls_set_cthreads. destruct (N.eqb_spec c c0); [congruence|].
+    split; [reflexivity|]. split; intro Hi; apply in_remove; tauto.
+  - rewrite cls_set_cthreads. destruct (N.eqb_spec c c0); [congruence|]. repeat split; auto.
+Qed.
+Lemma nd_class_incl t s :
+  incl (cpool (nd_class t s)) (cpool s) /\ incl (chain (nd_class t s)) (chain s) /\
+  (forall c, In c (cpool (nd_class t s)) -> In c (chain s) -> In c (chain (nd_class t s))).
+Proof.
+  unfold nd_class. destruct (v_class (vmof s t)) as [c0|]; [|split; [apply incl_refl|split; [apply incl_refl|auto]]].
+  destruct (remove t (c_threads (clsof s c0))).
+  - rewrite cpool_destroy_empty, chain_destroy_empty. split; [|split].
+    + intros x Hx. apply in_remove in Hx. tauto.
+    + intros x Hx. apply in_remove in Hx. tauto.
+    + intros c Hc Hch. apply in_remove in Hc. apply in_remove. tauto.
+  - split; [apply incl_refl|split; [apply incl_refl|auto]].
+Qed.
+
+Lemma nd_class_ne t s : NE s -> NE (nd_class t s).
+Proof.
+  intros Hne c Hc. unfold nd_class in *. destruct (v_class (vmof s t)) as [c0|]; [|now apply Hne].
+  destruct (remove t (c_threads (clsof s c0))) as [|h r] eqn:Er.
+  - rewrite chain_destroy_empty in Hc. apply in_remove in Hc. destruct Hc as [Hc Hn].
+    rewrite cls_destroy_empty, !cls_set_cthreads. destruct (N.eqb_spec c c0); [congruence|]. now apply Hne.
+  - rewrite cls_set_cthreads. destruct (N.eqb_spec c c0) as [->|_]; prj; [discriminate|now apply Hne].
+Qed.
+
+Lemma lcons_nd_class t s :
+  NoDup (cpool s) -> (forall c, v_class (vmof s t) = Some c -> In c (cpool s)) -> Lcons s (nd_class t s).
+Proof.
+  intros Hnd Hc. unfold nd_class. destruct (v_class (vmof s t)) as [c|]; [|apply lcons_refl].
+  destruct (remove t (c_threads (clsof s c))); [|apply lcons_same; reflexivity].
+  unfold Lcons, destroy_empty. prj. split; [apply Permutation_refl|]. split; [apply Permutation_refl|].
+  apply perm_free; [exact Hnd|now apply Hc].
+Qed.
+Lemma lcons_nd_result t s :
+  NoDup (cpool s) -> NoDup (vpool s) -> In t (vpool s) -> (forall c, v_class (vmof s t) = Some c -> In c (cpool s)) ->
+  Lcons s (nd_result t s).
+Proof.
+  intros Hc Hv Hin Hcl. unfold nd_result.
+  assert (L1 : Lcons s (nd_class t (set_vstate t VDestroyed s))).
+  { eapply lcons_trans; [apply (lcons_same s (set_vstate t VDestroyed s)); reflexivity|].
+    apply lcons_nd_class; [exact Hc|]. intros c Hvc. rewrite vm_set_vstate, N.eqb_refl in Hvc. now apply Hcl. }
+  destruct (v_state (vmof s t)); try exact L1.
+  eapply lcons_trans; [exact L1|].
+  destruct (nd_class_threads t (set_vstate t VDestroyed s)) as (_ & _ & _ & _ & _ & E6 & _).
+  unfold Lcons, free_vm. prj. split; [apply Permutation_refl|]. split; [|apply Permutation_refl].
+  apply perm_free; rewrite E6; assumption.
+Qed.
+Lemma start_timing_pools p d s :
+  tlog (start_timing p d s) = tlog s /\ tpool (start_timing p d s) = tpool s /\ vlog (start_timing p d s) = vlog s /\
+  vpool (start_timing p d s) = vpool s /\ clog (start_timing p d s) = clog s /\ cpool (start_timing p d s) = cpool s.
+Proof.
+  unfold start_timing, add_timing, stop.
+  destruct (t_state (th s p)); [| |destruct (t_waitfor (th s p))];
+    match goal with |- context [if ?b then _ else _] => destruct b end; repeat split; reflexivity.
+Qed.
+Lemma lcons_unreg t s : Lcons s (unreg_result t s).
+Proof.
+  unfold unreg_result. destruct (t_notify (th s t)) as [p|]; [|apply lcons_refl].
+  destruct (start_timing_pools p 0 (set_notify t None (set_waitfor p None s))) as (E1 & E2 & E3 & E4 & E5 & E6).
+  apply lcons_same; assumption.
+Qed.
+Lemma lcons_free_thread t s : NoDup (tpool s) -> In t (tpool s) -> Lcons s (free_thread t s).
+Proof.
+  intros Hnd Hin. unfold Lcons.
+  assert (E : tlog (free_thread t s) = t :: tlog s /\ vlog (free_thread t s) = vlog s /\ clog (free_thread t s) = clog s).
+  { unfold free_thread. prj. destruct (cur s) as [x|]; [destruct (x =? t)|]; repeat split; reflexivity. }
+  destruct E as (E1 & E2 & E3). destruct (free_thread_fields t s) as (_ & _ & _ & K4 & K5 & _).
+  rewrite E1, E2, E3, K4, K5, tpool_free_thread. split; [now apply perm_free|]. split; apply Permutation_refl.
+Qed.
+
+Lemma tail_ok sc cl s t :
+  Dinv sc cl s -> In t (tpool s) -> t_vm (th s t) = false -> t_waitfor (th s t) = None ->
+  ~ In t (map fst (elems s)) -> In t (vpool s) -> v_state (vmof s t) <> VDestroyed ->
+  (forall c, v_class (vmof s t) = Some c -> In c (cpool s) /\ In t (c_threads (clsof s c))) ->
+  anc cl s t ->
+  Tailpost sc cl t s (tailf t s).
+Proof.
+  intros H Hin Hu Hwt Hel Hvp Hvs Hcls Hanc.
+  (* phase C: NotifyDelete *)
+  pose proof (dinv_nd_result sc cl s t H Hu) as H1.
+  destruct (nd_result_fields t s) as (E1 & E2 & E3 & E4 & E5 & E6 & E7).
+  set (s1 := nd_result t s) in *.
+  assert (Eth : forall x, th s1 x = th s x) by (intro x; unfold th; now rewrite E1).
+  (* phase D: UnregisterAll *)
+  assert (HD : exists s2, s2 = unreg_result t s1 /\ Dinv sc cl s2 /\
+            vms s2 = vms s1 /\ classes s2 = classes s1 /\ tpool s2 = tpool s1 /\ vpool s2 = vpool s1 /\
+            cpool s2 = cpool s1 /\ chain s2 = chain s1 /\ cur s2 = cur s1 /\ ub s2 = ub s1 /\ oof s2 = oof s1 /\ ctl_eq s1 s2 /\
+            t_vm (th s2 t) = false /\ t_waitfor (th s2 t) = None /\ t_notify (th s2 t) = None /\
+            (forall x, x <> t -> th s2 x = th s x \/ woken s s2 t x) /\
+            (forall e, In e (elems s2) -> In e (elems s) \/ (t_notify (th s t) = Some (fst e) /\ fst e <> t))).
+  { unfold unreg_result. rewrite Eth. destruct (t_notify (th s t)) as [p|] eqn:En.
+    - (* somebody waits for the end of t *)
+      assert (Hin1 : In t (tpool s1)) by (rewrite E2; exact Hin).
+      assert (En1 : t_notify (th s1 t) = Some p) by (rewrite Eth; exact En).
+      destruct (d_nf _ _ _ H1 t p Hin1 En1) as [Hp Hwp].
+      assert (Hpt : p <> t). { intros ->. rewrite Eth, Hwt in Hwp. discriminate. }
+      assert (Hpv : t_vm (th s p) = true).
+      { destruct (t_vm (th s p)) eqn:Ev; [reflexivity|]. rewrite E2 in Hp.
+        destruct (Hanc p Hp Ev Hpt) as [_ Hw0]. rewrite Eth, Hw0 in Hwp. discriminate. }
+      assert (Hph : healthy s1 p) by (split; [exact Hp|rewrite Eth; exact Hpv]).
+      destruct (d_wf _ _ _ H1 p t Hph Hwp) as (_ & _ & Hps & _).
+      assert (Hu1 : t_vm (th s1 t) = false) by (rewrite Eth; exact Hu).
+      pose proof (dinv_unregister sc cl s1 t p H1 Hu1 Hin1 En1 Hpt) as H2.
+      set (sm := set_notify t None (set_waitfor p None s1)) in *.
+      assert (Ethm : forall x, th sm x = if x =? t then mkT (t_vm (th s t)) (t_state (th s t)) (t_waitfor (th s t)) None
+                               else if x =? p then mkT (t_vm (th s p)) (t_state (th s p)) None (t_notify (th s p)) else th s x).
+      { intro x. unfold sm. rewrite th_set_notify, !th_set_waitfor, !Eth. destruct (N.eqb_spec t p); [congruence|].
+        destruct (N.eqb_spec x t); reflexivity. }
+      assert (Hpm : healthy sm p).
+      { split; [exact Hp|]. rewrite Ethm. destruct (N.eqb_spec p t); [congruence|]. rewrite N.eqb_refl. exact Hpv. }
+      assert (Hsm : t_state (th sm p) = TWaiting).
+      { rewrite Ethm. destruct (N.eqb_spec p t); [congruence|]. rewrite N.eqb_refl. prj. rewrite <- Eth. exact Hps. }
+      assert (Hwm : t_waitfor (th sm p) = None).
+      { rewrite Ethm. destruct (N.eqb_spec p t); [congruence|]. now rewrite N.eqb_refl. }
+      pose proof (dinv_wake sc cl sm p 0 H2 Hpm Hsm Hwm) as H3.
+      rewrite start_timing_waiting in * by assumption.
+      set (sq := set_tstate p TTiming (set_tstate p TRunning sm)) in *.
+      destruct (add_timing_fields p 0 sq) as (F1 & F2 & F3 & F4 & F5 & F6 & F7 & F8 & F9 & F10 & F11 & F12).
+      assert (Ethq : forall x, th (add_timing p 0 sq) x =
+                if x =? p then mkT (t_vm (th s p)) TTiming None (t_notify (th s p)) else th sm x).
+      { intro x. unfold th at 1. rewrite F1. fold (th sq x). unfold sq. rewrite !th_set_tstate, N.eqb_refl.
+        destruct (N.eqb_spec x p) as [->|_]; [|reflexivity]. prj.
+        rewrite Ethm. destruct (N.eqb_spec p t); [congruence|]. rewrite N.eqb_refl. reflexivity. }
+      exists (add_timing p 0 sq). split; [reflexivity|]. split; [exact H3|].
+      rewrite F2, F3, F4, F5, F6, F7, F8, F10, F11. repeat (split; [reflexivity|]).
+      split; [exact F12|].
+      rewrite !Ethq. destruct (N.eqb_spec t p); [congruence|]. rewrite !Ethm, N.eqb_refl. prj.
+      split; [exact Hu|]. split; [exact Hwt|]. split; [reflexivity|]. split.
+      + intros x Hx. rewrite Ethq. destruct (N.eqb_spec x p) as [->|Hxp].
+        * right. split; [exact En|]. split; [rewrite <- Eth; exact Hwp|]. split; [rewrite <- Eth; exact Hps|]. rewrite Ethq, N.eqb_refl. reflexivity.
+        * left. rewrite Ethm. destruct (N.eqb_spec x t); [congruence|]. destruct (N.eqb_spec x p); [congruence|]. reflexivity.
+      + intros e He. rewrite F9 in He. apply in_app_or in He. destruct He as [He|[<-|[]]].
+        * left. rewrite <- E3. exact He.
+        * right. prj. split; [reflexivity|exact Hpt].
+    - exists s1. split; [reflexivity|]. split; [exact H1|]. repeat (split; [reflexivity|]).
+      split; [apply ctl_eq_refl|]. rewrite !Eth. split; [exact Hu|]. split; [exact Hwt|]. split; [exact En|]. split.
+      + intros x _. left. apply Eth.
+      + intros e He. left. rewrite <- E3. exact He. }
+  destruct HD as (s2 & Es2 & H2 & G1 & G2 & G3 & G4 & G5 & G6 & G7 & G8 & G9 & G10 & Gu & Gw & Gn & Gth & Gel).
+  unfold tailf. fold s1. rewrite <- Es2. pose proof Es2 as Es2'. clear Es2.
+  assert (Evm2 : forall x, vmof s2 x = vmof s1 x) by (intro x; unfold vmof; now rewrite G1).
+  assert (Ecl2 : forall c, clsof s2 c = clsof s1 c) by (intro c; unfold clsof; now rewrite G2).
+  (* phase F: the pool frees the thread *)
+  assert (H3 : Dinv sc cl (free_thread t s2)).
+  { apply dinv_free_thread; try assumption.
+    - (* no instance chain holds it *)
+      intros c Hc Hx. rewrite Ecl2 in Hx. rewrite G5 in Hc.
+      destruct (d_clin _ _ _ H1 c t Hc Hx) as [_ Hv]. unfold s1 in Hv, Hx. rewrite nd_result_vm, N.eqb_refl in Hv. prj.
+      (* so t's VM knew c: its chain lost t in phase C *)
+      unfold nd_result in Hx.
+      assert (Hx' : In t (c_threads (clsof (nd_class t (set_vstate t VDestroyed s)) c))).
+      { destruct (v_state (vmof s t)); exact Hx. }
+      clear Hx. unfold nd_class in Hx'.
+      assert (Ev' : v_class (vmof (set_vstate t VDestroyed s) t) = Some c) by (rewrite vm_set_vstate, N.eqb_refl; exact Hv).
+      rewrite Ev' in Hx'.
+      assert (Ec' : clsof (set_vstate t VDestroyed s) c = clsof s c) by reflexivity. rewrite Ec' in Hx'.
+      destruct (remove t (c_threads (clsof s c))) as [|h r] eqn:Er.
+      + rewrite cls_destroy_empty, N.eqb_refl in Hx'. exact Hx'.
+      + rewrite cls_set_cthreads, N.eqb_refl in Hx'. prj. rewrite <- Er in Hx'. apply in_remove in Hx'. tauto.
+    - (* no timer element *)
+      intro Hx. apply in_map_iff in Hx. destruct Hx as [e [E He]]. destruct (Gel e He) as [He'|[_ Hne]]; [|congruence].
+      apply Hel. rewrite <- E. now apply in_map.
+    - (* nobody waits for it *)
+      intros p Hp Hw. destruct (d_wf _ _ _ H2 p t Hp Hw) as (_ & Hn & _). rewrite Gn in Hn. discriminate.
+    - (* it waits for nobody *)
+      intros c Hc Hn. destruct (d_nf _ _ _ H2 c t Hc Hn) as [_ Hw]. rewrite Gw in Hw. discriminate.
+    - (* its VM is destroyed *)
+      intros _. rewrite Evm2. unfold s1. rewrite nd_result_vm, N.eqb_refl. reflexivity. }
+  destruct (free_thread_fields t s2) as (K1 & K2 & K3 & K4 & K5 & K6 & K7 & K8).
+  constructor.
+  - exact H3.
+  - destruct (free_thread_flags t s2) as (L1 & L2 & _). split; congruence.
+  - apply ctl_eq_trans with s2.
+    + apply ctl_eq_trans with s1; [|exact G10]. unfold s1, nd_result, nd_class, ctl_eq.
+      destruct (v_class (vmof (set_vstate t VDestroyed s) t)); [destruct (remove t (c_threads (clsof (set_vstate t VDestroyed s) _)))|];
+        destruct (v_state (vmof s t)); repeat split; reflexivity.
+    + apply free_thread_flags.
+  - rewrite tpool_free_thread, G3, E2. reflexivity.
+  - intros x Hx. unfold th at 1. rewrite K1. fold (th s2 x). destruct (Gth x Hx) as [E|W]; [left; exact E|right].
+    destruct W as (W1 & W2 & W2' & W3). split; [exact W1|]. split; [exact W2|]. split; [exact W2'|]. unfold th at 1. rewrite K1. exact W3.
+  - intros x Hx. unfold vmof at 1. rewrite K2. fold (vmof s2 x). rewrite Evm2. unfold s1. rewrite nd_result_vm.
+    destruct (N.eqb_spec x t); [congruence|reflexivity].
+  - rewrite K4, G4. unfold s1. apply nd_result_vpool.
+  - intros c Hc. unfold clsof at 1. rewrite K3. fold (clsof s2 c). rewrite Ecl2, K5, K6, G5, G6.
+    unfold s1, nd_result.
+    assert (Hc' : v_class (vmof (set_vstate t VDestroyed s) t) <> Some c) by (rewrite vm_set_vstate, N.eqb_refl; exact Hc).
+    pose proof (nd_class_other t (set_vstate t VDestroyed s) c Hc') as Q.
+    destruct (v_state (vmof s t)); exact Q.
+  - intro c. unfold clsof at 1. rewrite K3. fold (clsof s2 c). rewrite Ecl2. unfold s1, nd_result.
+    pose proof (nd_class_script t (set_vstate t VDestroyed s) c) as Q.
+    destruct (v_state (vmof s t)); exact Q.
+  - rewrite K5, K6, G5, G6. unfold s1, nd_result.
+    destruct (nd_class_incl t (set_vstate t VDestroyed s)) as (Q1 & Q2 & _).
+    destruct (v_state (vmof s t)); split; assumption.
+  - intros c. rewrite K5, K6, G5, G6. unfold s1, nd_result.
+    destruct (nd_class_incl t (set_vstate t VDestroyed s)) as (_ & _ & Q).
+    destruct (v_state (vmof s t)); apply Q.
+  - intros e He. rewrite K7 in He. destruct (Gel e He) as [Hl|[Hr _]]; [now left|now right].
+  - rewrite K8, G7, E4. reflexivity.
+  - intros Hne c Hc. unfold clsof. rewrite K3. fold (clsof s2 c). rewrite Ecl2. rewrite K6, G6 in Hc.
+    unfold s1, nd_result in *.
+    pose proof (nd_class_ne t (set_vstate t VDestroyed s) Hne) as Q.
+    destruct (v_state (vmof s t)); now apply Q.
+  - eapply lcons_trans; [apply (lcons_nd_result t s); [exact (d_cp _ _ _ H)|exact (d_vp _ _ _ H)|exact Hvp|intros c Hc; now destruct (Hcls c Hc)]|].
+    fold s1. eapply lcons_trans; [apply (lcons_unreg t s1)|]. rewrite <- Es2'.
+    apply lcons_free_thread; [exact (d_tp _ _ _ H2)|rewrite G3, E2; exact Hin].
+Qed.
+
+(* ---- counting the threads whose destructor has not begun ------------------------------------------ *)
+Lemma hcount_same s s' : tpool s' = tpool s -> (forall u, t_vm (th s' u) = t_vm (th s u)) -> hcount s' = hcount s.
+Proof. intros Hp Hv. unfold hcount. rewrite Hp. f_equal. apply filter_ext. intro u. unfold healthyb. apply Hv. Qed.
+Lemma filter_length_le {A} (f : A -> bool) l : (length (filter f l) <= length l)%nat.
+Proof. induction l as [|x l IH]; cbn [filter length]; [lia|]. destruct (f x); cbn [length]; lia. Qed.
+Lemma hcount_set_tvm_false s t : healthy s t -> NoDup (tpool s) -> S (hcount (set_tvm t false s)) = hcount s.
+Proof.
+  intros [Hin Hv] Hnd. unfold hcount. change (tpool (set_tvm t false s)) with (tpool s).
+  induction (tpool s) as [|x l IH]; [destruct Hin|].
+  inversion Hnd as [|? ? Hn Hd]; subst. cbn [filter].
+  assert (E1 : healthyb (set_tvm t false s) x = if x =? t then false else healthyb s x).
+  { unfold healthyb. rewrite th_set_tvm. destruct (x =? t); reflexivity. }
+  rewrite E1.
+  destruct (N.eqb_spec x t) as [->|Hne].
+  - unfold healthyb at 2. rewrite Hv. cbn [length]. f_equal.
+    apply f_equal. apply filter_ext_in. intros u Hu. unfold healthyb. rewrite th_set_tvm.
+    destruct (N.eqb_spec u t) as [->|_]; [tauto|reflexivity].
+  - destruct Hin as [E|Hin]; [congruence|]. destruct (healthyb s x); cbn [length]; rewrite <- IH by assumption; reflexivity.
+Qed.
+Lemma hcount_remove_unhealthy s s' t :
+  tpool s' = remove t (tpool s) -> (forall u, u <> t -> t_vm (th s' u) = t_vm (th s u)) -> t_vm (th s t) = false ->
+  hcount s' = hcount s.
+Proof.
+  intros Hp Hv Hu. unfold hcount. rewrite Hp. unfold remove. clear Hp.
+  induction (tpool s) as [|x l IH]; [reflexivity|]. cbn [filter].
+  destruct (N.eqb_spec x t) as [->|Hne]; cbn [negb].
+  - unfold healthyb at 2. rewrite Hu. exact IH.
+  - cbn [filter]. assert (E : healthyb s' x = healthyb s x) by (unfold healthyb; now apply Hv). rewrite E.
+    destruct (healthyb s x); cbn [length]; now rewrite IH.
+Qed.
+
+(* ---- the deletion of a thread, with its cascade ---------------------------------------------------- *)
+Record DTpost (sc cl : N -> N) (t : N) (s s' : st) : Prop := {
+  p_inv : Dinv sc cl s';
+  p_flags : ub s' = ub s /\ oof s' = oof s;
+  p_ctl : ctl_eq s s';
+  p_tin : incl (tpool s') (tpool s);
+  p_tnot : ~ In t (tpool s');
+  p_kill : forall x, In x (tpool s) -> ~ In x (tpool s') -> healthy s x /\ sc x = sc t /\ cl t <= cl x;
+  p_th : forall x, In x (tpool s') -> th s' x = th s x \/ woken s s' t x;
+  p_vm : forall x, In x (tpool s') \/ ~ In x (tpool s) -> vmof s' x = vmof s x;
+  p_vin : incl (vpool s') (vpool s);
+  p_vkeep : forall v, In v (vpool s) -> In v (tpool s') \/ ~ In v (tpool s) \/ v_state (vmof s v) <> VIdling -> In v (vpool s');
+  p_cin : incl (cpool s') (cpool s) /\ incl (chain s') (chain s);
+  p_clow : forall c, c < cl t \/ (c = cl t /\ v_class (vmof s t) = None) ->
+      clsof s' c = clsof s c /\ (In c (cpool s) -> In c (cpool s')) /\ (In c (chain s) -> In c (chain s'));
+  p_cscript : forall c, c_script (clsof s' c) = c_script (clsof s c);
+  p_ckill : forall c, In c (cpool s) -> ~ In c (cpool s') -> c_script (clsof s c) = sc t /\ cl t <= c;
+  p_chkeep : forall c, In c (cpool s') -> In c (chain s) -> In c (chain s');
+  p_elems : forall e, In e (elems s') -> In e (elems s) \/ t_notify (th s t) = Some (fst e);
+  p_cur : cur s' = match cur s with Some x => if memb x (tpool s') then Some x else None | None => None end;
+  p_hc : (hcount s' < hcount s)%nat;
+  p_ne : NE s -> NE s';
+  p_log : Lcons s s';
+  p_vgone : forall v, In v (tpool s) -> ~ In v (tpool s') -> v_state (vmof s v) = VIdling -> ~ In v (vpool s') }.
+
+(* the state when the destructor of t has dealt with what t was doing (timer / awaited thread) *)
+Record Bpost (sc cl : N -> N) (t : N) (s sB : st) : Prop := {
+  b_inv : Dinv sc cl sB;
+  b_flags : ub sB = ub s /\ oof sB = oof s;
+  b_ctl : ctl_eq s sB;
+  b_t : In t (tpool sB) /\ t_vm (th sB t) = false /\ t_waitfor (th sB t) = None /\ t_notify (th sB t) = t_notify (th s t) /\
+        ~ In t (map fst (elems sB)) /\ vmof sB t = vmof s t /\ In t (vpool sB);
+  b_tin : incl (tpool sB) (tpool s);
+  b_kill : forall x, In x (tpool s) -> ~ In x (tpool sB) -> healthy s x /\ sc x = sc t /\ cl t < cl x;
+  b_th : forall x, In x (tpool sB) -> x <> t -> th sB x = th s x;
+  b_vm : forall x, In x (tpool sB) \/ ~ In x (tpool s) -> vmof sB x = vmof s x;
+  b_vin : incl (vpool sB) (vpool s);
+  b_vkeep : forall v, In v (vpool s) -> In v (tpool sB) \/ ~ In v (tpool s) \/ v_state (vmof s v) <> VIdling -> In v (vpool sB);
+  b_cin : incl (cpool sB) (cpool s) /\ incl (chain sB) (chain s);
+  b_clow : forall c, c <= cl t -> clsof sB c = clsof s c /\ (In c (cpool s) -> In c (cpool sB)) /\ (In c (chain s) -> In c (chain sB));
+  b_cscript : forall c, c_script (clsof sB c) = c_script (clsof s c);
+  b_ckill : forall c, In c (cpool s) -> ~ In c (cpool sB) -> c_script (clsof s c) = sc t /\ cl t < c;
+  b_chkeep : forall c, In c (cpool sB) -> In c (chain s) -> In c (chain sB);
+  b_elems : forall e, In e (elems sB) -> In e (elems s);
+  b_cur : cur sB = match cur s with Some x => if memb x (tpool sB) then Some x else None | None => None end;
+  b_hc : (hcount sB < hcount s)%nat;
+  b_ne : NE s -> NE sB;
+  b_log : Lcons s sB;
+  b_vgone : forall v, In v (tpool s) -> ~ In v (tpool sB) -> v_state (vmof s v) = VIdling -> ~ In v (vpool sB) }.
+
+Lemma hcount_pos s t : healthy s t -> (1 <= hcount s)%nat.
+Proof.
+  intros [Hin Hv]. unfold hcount. assert (H : In t (filter (healthyb s) (tpool s))) by (apply filter_In; split; assumption).
+  destruct (filter (healthyb s) (tpool s)); [destruct H|cbn [length]; lia].
+Qed.
+
+Lemma memb_true x l : In x l -> memb x l = true.
+Proof. apply memb_in. Qed.
+
+Lemma option_eq_dec_N (a b : option N) : {a = b} + {a <> b}.
+Proof. decide equality. apply N.eq_dec. Qed.
+
+(* composing the two halves *)
+Lemma dt_compose sc cl t s sB sF :
+  Dinv sc cl s -> healthy s t -> Bpost sc cl t s sB -> Tailpost sc cl t sB sF -> DTpost sc cl t s sF.
+Proof.
+  intros H Ht B T. destruct B, T.
+  destruct b_t0 as (Bt1 & Bt2 & Bt3 & Bt4 & Bt5 & Bt6 & Bt7).
+  assert (Htp : forall x, In x (tpool sF) <-> In x (tpool sB) /\ x <> t) by (intro x; rewrite tp_tpool0; apply in_remove).
+  assert (Hcl : forall c, v_class (vmof s t) = Some c -> c = cl t).
+  { intros c Hc. apply (d_cl _ _ _ H t c); [apply Ht|exact Hc]. }
+  constructor.
+  - exact tp_inv0.
+  - destruct b_flags0, tp_flags0. split; congruence.
+  - eapply ctl_eq_trans; eauto.
+  - intros x Hx. apply Htp in Hx. apply b_tin0. tauto.
+  - intro Hx. apply Htp in Hx. tauto.
+  - intros x Hx Hn. destruct (N.eq_dec x t) as [->|Hne].
+    + split; [exact Ht|]. split; [reflexivity|lia].
+    + assert (Hnb : ~ In x (tpool sB)) by (intro Hb; apply Hn; apply Htp; tauto).
+      destruct (b_kill0 x Hx Hnb) as (K1 & K2 & K3). split; [exact K1|]. split; [exact K2|lia].
+  - intros x Hx. apply Htp in Hx. destruct Hx as [Hx Hne].
+    destruct (tp_th0 x Hne) as [E|W].
+    + left. rewrite E. now apply b_th0.
+    + right. destruct W as (W1 & W2 & W2' & W3). unfold woken. rewrite <- Bt4, <- (b_th0 x Hx Hne).
+      split; [exact W1|]. split; [exact W2|]. split; [exact W2'|exact W3].
+  - intros x Hx. assert (Hne : x <> t).
+    { destruct Hx as [Hx|Hx]; [apply Htp in Hx; tauto|]. intros ->. apply Hx. apply Ht. }
+    rewrite (tp_vm0 x Hne). apply b_vm0. destruct Hx as [Hx|Hx]; [apply Htp in Hx; tauto|tauto].
+  - intros v Hv. apply b_vin0. rewrite tp_vpool0 in Hv. destruct (v_state (vmof sB t)); try exact Hv.
+    apply in_remove in Hv. tauto.
+  - intros v Hv Hc.
+    destruct (N.eq_dec v t) as [->|Hne].
+    + (* t itself: its VM stays unless it was idling *)
+      assert (Hs : v_state (vmof s t) <> VIdling).
+      { destruct Hc as [Hc|[Hc|Hc]]; [apply Htp in Hc; tauto|exfalso; apply Hc; apply Ht|exact Hc]. }
+      rewrite tp_vpool0, Bt6. destruct (v_state (vmof s t)); try exact Bt7. congruence.
+    + assert (Hb : In v (vpool sB)).
+      { apply b_vkeep0; [exact Hv|]. destruct Hc as [Hc|[Hc|Hc]]; [apply Htp in Hc; tauto|tauto|tauto]. }
+      rewrite tp_vpool0. destruct (v_state (vmof sB t)); try exact Hb. apply in_remove. tauto.
+  - destruct b_cin0, tp_cin0. split; eapply incl_tran; eauto.
+  - intros c Hc.
+    assert (Hcb : c <= cl t) by (destruct Hc as [Hc|[Hc _]]; lia).
+    assert (Hnc : v_class (vmof sB t) <> Some c).
+    { rewrite Bt6. intro Hv. pose proof (Hcl c Hv) as E. destruct Hc as [Hc|[_ Hc]]; [lia|congruence]. }
+    destruct (b_clow0 c Hcb) as (B1 & B2 & B3). destruct (tp_cls0 c Hnc) as (T1 & T2 & T3).
+    split; [congruence|]. split; auto.
+  - intro c. rewrite tp_cscript0. apply b_cscript0.
+  - intros c Hc Hn. destruct (in_dec N.eq_dec c (cpool sB)) as [Hb|Hb].
+    + (* destroyed by the tail: t's own instance *)
+      destruct (option_eq_dec_N (v_class (vmof sB t)) (Some c)) as [E|E].
+      * rewrite Bt6 in E. pose proof (Hcl c E) as ->. split; [|lia].
+        destruct (d_thr _ _ _ H t Ht) as (_ & _ & Hc3). now destruct (Hc3 _ E).
+      * destruct (tp_cls0 c E) as (_ & T2 & _). tauto.
+    + destruct (b_ckill0 c Hc Hb) as [K1 K2]. split; [exact K1|lia].
+  - intros c Hc Hch. apply tp_chkeep0; [exact Hc|]. apply b_chkeep0; [|exact Hch]. destruct tp_cin0 as [Hi _]. now apply Hi.
+  - intros e He. destruct (tp_elems0 e He) as [Hl|Hr]; [left; now apply b_elems0|right; congruence].
+  - rewrite tp_cur0, b_cur0. destruct (cur s) as [x|]; [|reflexivity].
+    destruct (memb_spec x (tpool sB)) as [Hb|Hb].
+    + destruct (N.eqb_spec x t) as [->|Hne].
+      * destruct (memb_spec t (tpool sF)) as [Hf|_]; [apply Htp in Hf; tauto|reflexivity].
+      * rewrite memb_true; [reflexivity|]. apply Htp. tauto.
+    + destruct (memb_spec x (tpool sF)) as [Hf|_]; [apply Htp in Hf; tauto|reflexivity].
+  - assert (E : hcount sF = hcount sB).
+    { apply hcount_remove_unhealthy with t; [exact tp_tpool0| |exact Bt2].
+      intros u Hu. destruct (tp_th0 u Hu) as [E|(_ & _ & _ & W3)]; [now rewrite E|]. rewrite W3. reflexivity. }
+    lia.
+  - auto.
+  - eapply lcons_trans; eauto.
+  - intros v Hv Hn Hs Hin'. rewrite tp_vpool0 in Hin'.
+    destruct (N.eq_dec v t) as [->|Hne].
+    + rewrite Bt6, Hs in Hin'. apply in_remove in Hin'. tauto.
+    + assert (Hnb : ~ In v (tpool sB)) by (intro Hb; apply Hn; apply Htp; tauto).
+      apply (b_vgone0 v Hv Hnb Hs). destruct (v_state (vmof sB t)); try exact Hin'. apply in_remove in Hin'. tauto.
+Qed.
+
+Lemma bpost_simple sc cl t s sB :
+  Dinv sc cl s -> healthy s t -> Dinv sc cl sB ->
+  tpool sB = tpool s -> vms sB = vms s -> classes sB = classes s -> vpool sB = vpool s -> cpool sB = cpool s ->
+  chain sB = chain s -> cur sB = cur s -> ub sB = ub s -> oof sB = oof s -> ctl_eq s sB ->
+  tlog sB = tlog s -> vlog sB = vlog s -> clog sB = clog s ->
+  (forall x, x <> t -> th sB x = th s x) ->
+  t_vm (th sB t) = false -> t_waitfor (th sB t) = None -> t_notify (th sB t) = t_notify (th s t) ->
+  incl (elems sB) (elems s) -> ~ In t (map fst (elems sB)) ->
+  Bpost sc cl t s sB.
+Proof.
+  intros H Ht HB E1 E2 E3 E4 E5 E6 E7 E8 E9 E10 L1 L2 L3 Hth Hu Hw Hn Hel Hnel.
+  assert (Evm : forall x, vmof sB x = vmof s x) by (intro x; unfold vmof; now rewrite E2).
+  assert (Ecl : forall c, clsof sB c = clsof s c) by (intro c; unfold clsof; now rewrite E3).
+  destruct (d_thr _ _ _ H t Ht) as (Hv & _).
+  constructor.
+  - exact HB.
+  - split; assumption.
+  - exact E10.
+  - destruct Ht as [Hin _]. rewrite E1, E4. repeat split; auto.
+  - rewrite E1. apply incl_refl.
+  - intros x Hx Hn'. rewrite E1 in Hn'. tauto.
+  - intros x _ Hne. now apply Hth.
+  - intros x _. apply Evm.
+  - rewrite E4. apply incl_refl.
+  - intros v Hv' _. rewrite E4. exact Hv'.
+  - rewrite E5, E6. split; apply incl_refl.
+  - intros c _. rewrite Ecl, E5, E6. auto.
+  - intro c. now rewrite Ecl.
+  - intros c Hc Hn'. rewrite E5 in Hn'. tauto.
+  - intros c _ Hc. rewrite E6. exact Hc.
+  - exact Hel.
+  - rewrite E7, E1. destruct (cur s) as [x|] eqn:Ec; [|reflexivity]. rewrite memb_true; [reflexivity|].
+    apply (d_cur _ _ _ H x Ec).
+  - assert (E : hcount sB = hcount (set_tvm t false s)).
+    { apply hcount_same; [exact E1|]. intro u. rewrite th_set_tvm. destruct (N.eqb_spec u t) as [->|Hne]; [exact Hu|now rewrite Hth]. }
+    rewrite E. pose proof (hcount_set_tvm_false s t Ht (d_tp _ _ _ H)). lia.
+  - intros Hne c Hc. rewrite Ecl. apply Hne. now rewrite <- E6.
+  - apply lcons_same; assumption.
+  - intros v Hv' Hn'. rewrite E1 in Hn'. tauto.
+Qed.
+
+Lemma th_add_timing p d s x : th (add_timing p d s) x = th s x.
+Proof. unfold th. now destruct (add_timing_fields p d s) as (-> & _). Qed.
+Lemma th_remove_timing p s x : th (remove_timing p s) x = th s x.
+Proof. reflexivity. Qed.
+Lemma th_stop_other p s x : x <> p -> th (stop p s) x = th s x.
+Proof.
+  intro Hne. unfold stop. destruct (t_state (th s p)); [reflexivity| |].
+  - rewrite th_remove_timing, th_set_tstate. destruct (N.eqb_spec x p); [congruence|reflexivity].
+  - destruct (t_waitfor (th s p)).
+    + change (th (flag_ub (set_tstate p TRunning s)) x) with (th (set_tstate p TRunning s) x).
+      rewrite th_set_tstate. destruct (N.eqb_spec x p); [congruence|reflexivity].
+    + rewrite th_set_tstate. destruct (N.eqb_spec x p); [congruence|reflexivity].
+Qed.
+Lemma th_start_timing_other p d s x : x <> p -> th (start_timing p d s) x = th s x.
+Proof.
+  intro Hne. unfold start_timing. rewrite th_add_timing, th_set_tstate.
+  destruct (N.eqb_spec x p); [congruence|]. now apply th_stop_other.
+Qed.
+
+Lemma unreg_cond sc cl s t :
+  Dinv sc cl s -> In t (tpool s) -> t_waitfor (th s t) = None -> anc cl s t ->
+  forall p, t_notify (th s t) = Some p ->
+    p <> t /\ In p (tpool s) /\ t_waitfor (th s p) = Some t /\ t_vm (th s p) = true /\ t_state (th s p) = TWaiting.
+Proof.
+  intros H Hin Hwt Hanc p En.
+  destruct (d_nf _ _ _ H t p Hin En) as [Hp Hwp].
+  assert (Hpt : p <> t) by (intros ->; rewrite Hwt in Hwp; discriminate).
+  assert (Hpv : t_vm (th s p) = true).
+  { destruct (t_vm (th s p)) eqn:Ev; [reflexivity|]. destruct (Hanc p Hp Ev Hpt) as [_ Hw0]. rewrite Hw0 in Hwp. discriminate. }
+  destruct (d_wf _ _ _ H p t (conj Hp Hpv) Hwp) as (_ & _ & Hps & _).
+  tauto.
+Qed.
+
+Lemma unreg_result_t_waitfor t s : t_waitfor (th (unreg_result t s) t) = t_waitfor (th s t) \/ t_notify (th s t) = Some t.
+Proof.
+  unfold unreg_result. destruct (t_notify (th s t)) as [p|] eqn:En; [|now left].
+  destruct (N.eq_dec p t) as [->|Hne]; [now right|left].
+  rewrite th_start_timing_other by congruence. rewrite th_set_notify, N.eqb_refl. prj.
+  rewrite th_set_waitfor. destruct (N.eqb_spec t p); [congruence|reflexivity].
+Qed.
+
+Lemma delete_thread_tail sc cl g t s sB :
+  Dinv sc cl s -> healthy s t -> Bpost sc cl t s sB -> anc cl sB t ->
+  free_thread t (cancel_waiting_all (S (S (S g))) t (unregister_all t (notify_delete (S (S (S g))) t sB))) = tailf t sB /\
+  Tailpost sc cl t sB (tailf t sB).
+Proof.
+  intros H Ht B Hanc. pose proof B as B'. destruct B'.
+  destruct b_t0 as (Bt1 & Bt2 & Bt3 & Bt4 & Bt5 & Bt6 & Bt7).
+  destruct (d_thr _ _ _ H t Ht) as (Hv & Hvs & Hc3).
+  assert (Hcls : forall c, v_class (vmof sB t) = Some c -> In c (cpool sB) /\ In t (c_threads (clsof sB c)) /\ NoDup (c_threads (clsof sB c))).
+  { intros c Hc. rewrite Bt6 in Hc. destruct (Hc3 c Hc) as [Hcp _].
+    assert (Ecl : c = cl t) by (apply (d_cl _ _ _ H t c); [apply Ht|exact Hc]).
+    destruct (b_clow0 c) as (E1 & E2 & _); [lia|].
+    assert (Hcb : In c (cpool sB)) by auto.
+    split; [exact Hcb|]. split.
+    - rewrite E1. now apply (d_clall _ _ _ H).
+    - now apply (d_clnd _ _ _ b_inv0). }
+  assert (Hvs' : v_state (vmof sB t) <> VDestroyed) by (rewrite Bt6; exact Hvs).
+  rewrite notify_delete_eq by assumption.
+  destruct (nd_result_fields t sB) as (E1 & E2 & E3 & _).
+  assert (Eth : forall x, th (nd_result t sB) x = th sB x) by (intro x; unfold th; now rewrite E1).
+  pose proof (dinv_nd_result sc cl sB t b_inv0 Bt2) as H1.
+  assert (Hanc1 : anc cl (nd_result t sB) t).
+  { intros x Hx Hxv Hne. rewrite E2 in Hx. rewrite Eth in *. now apply Hanc. }
+  rewrite unregister_all_eq.
+  2:{ apply (unreg_cond sc cl); [exact H1|rewrite E2; exact Bt1|rewrite Eth; exact Bt3|exact Hanc1]. }
+  rewrite cancel_none.
+  2:{ destruct (unreg_result_t_waitfor t (nd_result t sB)) as [E|E].
+      - rewrite E, Eth. exact Bt3.
+      - exfalso. destruct (unreg_cond sc cl _ t H1) with (p := t) as (Hne & _); auto.
+        + rewrite E2; exact Bt1.
+        + rewrite Eth; exact Bt3. }
+  split; [reflexivity|].
+  apply tail_ok; try assumption.
+  intros c Hc. destruct (Hcls c Hc) as (Q1 & Q2 & _). tauto.
+Qed.
+
+Lemma anc_after_b sc cl t s sB : Bpost sc cl t s sB -> anc cl s t -> anc cl sB t.
+Proof.
+  intros B Hanc x Hx Hxv Hne. destruct B.
+  rewrite (b_th0 x Hx Hne) in *. apply Hanc; auto.
+Qed.
+
+(* one level of the two recursive destructors, as equations *)
+Lemma delete_thread_unfold f t s :
+  delete_thread (S f) t s =
+    if negb (memb t (tpool s)) then flag_ub s else
+    let r := th s t in
+    let s1 :=
+      if t_vm r then
+        notify_delete f t
+          (match t_state r with
+           | TTiming => remove_timing t (set_tstate t TRunning (set_tvm t false s))
+           | TWaiting => cancel_waiting_all f t (set_tstate t TRunning (set_tvm t false s))
+           | TRunning => set_tvm t false s
+           end)
+      else s in
+    free_thread t (cancel_waiting_all f t (unregister_all t s1)).
+Proof. reflexivity. Qed.
+
+Lemma cancel_waiting_all_unfold f t s :
+  cancel_waiting_all (S f) t s =
+    match t_waitfor (th s t) with
+    | None => s
+    | Some c =>
+        if negb (memb c (tpool s)) then flag_ub s else
+        let found := match t_notify (th s c) with Some x => x =? t | None => false end in
+        let s1 := if found then set_notify c None s else s in
+        let s2 := set_waitfor t None s1 in
+        let s3 := if t_vm (th s2 t) then match t_state (th s2 t) with TWaiting => flag_ub s2 | _ => s2 end else s2 in
+        if found && t_vm (th s3 c) then delete_thread f c s3 else s3
+    end.
+Proof. reflexivity. Qed.
+
+Definition s3_of (t c : N) (s : st) : st :=
+  set_waitfor t None (set_notify c None (set_tstate t TRunning (set_tvm t false s))).
+
+Lemma th_s3_of t c s x : t <> c ->
+  th (s3_of t c s) x =
+    if x =? t then mkT false TRunning None (t_notify (th s t))
+    else if x =? c then mkT (t_vm (th s c)) (t_state (th s c)) (t_waitfor (th s c)) None else th s x.
+Proof.
+  intro Htc. unfold s3_of. rewrite th_set_waitfor, !th_set_notify, !th_set_tstate, !th_set_tvm, !N.eqb_refl.
+  destruct (N.eqb_spec t c); [congruence|]. destruct (N.eqb_spec c t); [congruence|].
+  destruct (N.eqb_spec x t); [reflexivity|]. destruct (N.eqb_spec x c); reflexivity.
+Qed.
+
+(* the cascade: t waited for c; c is deleted first (its own cascade included) *)
+Lemma bpost_cascade sc cl t c s s4 :
+  Dinv sc cl s -> healthy s t -> t_state (th s t) = TWaiting -> t_waitfor (th s t) = Some c ->
+  t <> c -> cl t < cl c -> sc c = sc t ->
+  DTpost sc cl c (s3_of t c s) s4 ->
+  Bpost sc cl t s s4.
+Proof.
+  intros H Ht Ets Ew Htc Hclc Hsc P. pose proof Ht as [Hin Hv].
+  set (s3 := s3_of t c s) in *.
+  assert (Eth3 : forall x, th s3 x =
+            if x =? t then mkT false TRunning None (t_notify (th s t))
+            else if x =? c then mkT (t_vm (th s c)) (t_state (th s c)) (t_waitfor (th s c)) None else th s x)
+    by (intro x; apply th_s3_of; exact Htc).
+  assert (Hnel : ~ In t (map fst (elems s))).
+  { intro Hx. apply in_map_iff in Hx. destruct Hx as [e [E He]].
+    destruct (d_tm _ _ _ H e He) as [_ Hs]. rewrite E in Hs. congruence. }
+  destruct P as [p_inv0 p_flags0 p_ctl0 p_tin0 p_tnot0 p_kill0 p_th0 p_vm0 p_vin0 p_vkeep0 p_cin0 p_clow0 p_cscript0 p_ckill0 p_chkeep0 p_elems0 p_cur0 p_hc0 p_ne0 p_log0 p_vgone0].
+  assert (Hnw : forall x, ~ woken s3 s4 c x).
+  { intros x W. destruct W as (W1 & _). rewrite Eth3 in W1. destruct (N.eqb_spec c t); [congruence|]. rewrite N.eqb_refl in W1. discriminate. }
+  assert (Ht4 : In t (tpool s4)).
+  { destruct (in_dec N.eq_dec t (tpool s4)) as [Hi|Hi]; [exact Hi|].
+    destruct (p_kill0 t Hin Hi) as [[_ Hx] _]. rewrite Eth3, N.eqb_refl in Hx. discriminate. }
+  assert (Eth4 : forall x, In x (tpool s4) -> th s4 x = th s3 x).
+  { intros x Hx. destruct (p_th0 x Hx) as [E|W]; [exact E|]. exfalso. exact (Hnw x W). }
+  assert (Evm3 : forall x, vmof s3 x = vmof s x) by reflexivity.
+  assert (Ecl3 : forall x, clsof s3 x = clsof s x) by reflexivity.
+  destruct (d_thr _ _ _ H t Ht) as (Hvp & _).
+  assert (Eh3 : hcount s3 = hcount (set_tvm t false s)).
+  { apply hcount_same; [reflexivity|]. intro u. rewrite Eth3, th_set_tvm.
+    destruct (N.eqb_spec u t); [reflexivity|]. destruct (N.eqb_spec u c) as [->|_]; reflexivity. }
+  pose proof (hcount_set_tvm_false s t Ht (d_tp _ _ _ H)) as EhA.
+  constructor.
+  - exact p_inv0.
+  - exact p_flags0.
+  - exact p_ctl0.
+  - rewrite (Eth4 t Ht4), Eth3, N.eqb_refl. prj. split; [exact Ht4|]. repeat (split; [reflexivity|]). split; [|split].
+    + intro Hx. apply in_map_iff in Hx. destruct Hx as [e [E He]].
+      destruct (p_elems0 e He) as [He'|He'].
+      * apply Hnel. rewrite <- E. apply in_map. exact He'.
+      * rewrite Eth3 in He'. destruct (N.eqb_spec c t); [congruence|]. rewrite N.eqb_refl in He'. discriminate.
+    + rewrite p_vm0 by (left; exact Ht4). apply Evm3.
+    + apply p_vkeep0; [exact Hvp|left; exact Ht4].
+  - exact p_tin0.
+  - intros x Hx Hn. destruct (p_kill0 x Hx Hn) as ([_ K1] & K2 & K3).
+    assert (Hxt : x <> t) by (intros ->; tauto).
+    split; [split; [exact Hx|]|split; [congruence|lia]].
+    rewrite Eth3 in K1. destruct (N.eqb_spec x t); [congruence|]. destruct (N.eqb_spec x c) as [->|_]; exact K1.
+  - intros x Hx Hne. rewrite (Eth4 x Hx), Eth3. destruct (N.eqb_spec x t); [congruence|].
+    destruct (N.eqb_spec x c) as [->|_]; [tauto|reflexivity].
+  - intros x Hx. rewrite p_vm0 by exact Hx. apply Evm3.
+  - exact p_vin0.
+  - exact p_vkeep0.
+  - exact p_cin0.
+  - intros c' Hc'. destruct (p_clow0 c') as (Q1 & Q2 & Q3); [left; lia|]. rewrite Q1, Ecl3. auto.
+  - intro c'. rewrite p_cscript0. now rewrite Ecl3.
+  - intros c' Hc' Hn. destruct (p_ckill0 c' Hc' Hn) as [K1 K2]. rewrite Ecl3 in K1. split; [congruence|lia].
+  - exact p_chkeep0.
+  - intros e He. destruct (p_elems0 e He) as [He'|He']; [exact He'|].
+    rewrite Eth3 in He'. destruct (N.eqb_spec c t); [congruence|]. rewrite N.eqb_refl in He'. discriminate.
+  - exact p_cur0.
+  - lia.
+  - intro Hne. apply p_ne0. exact Hne.
+  - exact p_log0.
+  - intros v Hv' Hn' Hs'. apply (p_vgone0 v Hv' Hn'). rewrite Evm3. exact Hs'.
+Qed.
+
+(* the state in which the nested deletion starts *)
+Lemma s3_ready sc cl t c s :
+  Dinv sc cl s -> healthy s t -> anc cl s t -> t_state (th s t) = TWaiting -> t_waitfor (th s t) = Some c ->
+  t <> c /\ cl t < cl c /\ sc c = sc t /\ In c (tpool s) /\ t_notify (th s c) = Some t /\ t_vm (th s c) = true /\
+  Dinv sc cl (s3_of t c s) /\ healthy (s3_of t c s) c /\ anc cl (s3_of t c s) c /\
+  S (hcount (s3_of t c s)) = hcount s.
+Proof.
+  intros H Ht Hanc Ets Ew. pose proof Ht as [Hin Hv].
+  destruct (d_wf _ _ _ H t c Ht Ew) as (Hc & Hnc & _ & Hsc & Hclc).
+  assert (Htc : t <> c) by (intros <-; lia).
+  assert (Hcv : t_vm (th s c) = true).
+  { destruct (t_vm (th s c)) eqn:Ev; [reflexivity|].
+    destruct (Hanc c Hc Ev (not_eq_sym Htc)) as [Hlt _]. lia. }
+  pose proof (th_s3_of t c s) as Eth3.
+  set (sA := set_tvm t false s).
+  pose proof (dinv_set_tvm_false sc cl s t H) as HA. fold sA in HA.
+  assert (HuA : t_vm (th sA t) = false) by (unfold sA; rewrite th_set_tvm, N.eqb_refl; reflexivity).
+  assert (Hnel : ~ In t (map fst (elems sA))).
+  { intro Hx. apply in_map_iff in Hx. destruct Hx as [e [E He]].
+    destruct (d_tm _ _ _ H e He) as [_ Hs]. rewrite E in Hs. congruence. }
+  pose proof (dinv_unhealthy_running sc cl sA t HA HuA Hnel) as HW.
+  set (sW := set_tstate t TRunning sA) in *.
+  assert (EthW : forall x, th sW x = if x =? t then mkT false TRunning (t_waitfor (th s t)) (t_notify (th s t)) else th s x).
+  { intro x. unfold sW, sA. rewrite th_set_tstate, !th_set_tvm, N.eqb_refl. destruct (N.eqb_spec x t); reflexivity. }
+  assert (Hw3 : t_waitfor (th sW t) = Some c) by (rewrite EthW, N.eqb_refl; exact Ew).
+  assert (Hn3 : t_notify (th sW c) = Some t) by (rewrite EthW; destruct (N.eqb_spec c t); [congruence|exact Hnc]).
+  assert (HuW : t_vm (th sW t) = false) by (rewrite EthW, N.eqb_refl; reflexivity).
+  pose proof (dinv_cancel_clear sc cl sW t c HW HuW Hw3 Hn3 Htc) as H3.
+  change (set_waitfor t None (set_notify c None sW)) with (s3_of t c s) in H3.
+  repeat (split; [assumption|]).
+  split; [|split].
+  - split; [exact Hc|]. rewrite Eth3 by exact Htc. destruct (N.eqb_spec c t); [congruence|]. rewrite N.eqb_refl. exact Hcv.
+  - intros x Hx Hxv Hne. change (tpool (s3_of t c s)) with (tpool s) in Hx. rewrite Eth3 in Hxv |- * by exact Htc.
+    destruct (N.eqb_spec x t) as [->|Hxt]; prj; [split; [exact Hclc|reflexivity]|].
+    destruct (N.eqb_spec x c); [congruence|].
+    destruct (Hanc x Hx Hxv Hxt) as [Hlt Hw0]. split; [lia|exact Hw0].
+  - assert (Eh3 : hcount (s3_of t c s) = hcount sA).
+    { apply hcount_same; [reflexivity|]. intro u. rewrite Eth3 by exact Htc. unfold sA. rewrite th_set_tvm.
+      destruct (N.eqb_spec u t); [reflexivity|]. destruct (N.eqb_spec u c) as [->|_]; reflexivity. }
+    rewrite Eh3. apply hcount_set_tvm_false; [exact Ht|exact (d_tp _ _ _ H)].
+Qed.
+
+(* the cancel step of a waiting, dying thread computes the nested deletion *)
+Lemma cancel_step f t c s :
+  t <> c -> t_waitfor (th s t) = Some c -> In c (tpool s) -> t_notify (th s c) = Some t -> t_vm (th s c) = true ->
+  cancel_waiting_all (S f) t (set_tstate t TRunning (set_tvm t false s)) = delete_thread f c (s3_of t c s).
+Proof.
+  intros Htc Ew Hc Hnc Hcv. rewrite cancel_waiting_all_unfold.
+  set (sW := set_tstate t TRunning (set_tvm t false s)).
+  assert (EthW : forall x, th sW x = if x =? t then mkT false TRunning (t_waitfor (th s t)) (t_notify (th s t)) else th s x).
+  { intro x. unfold sW. rewrite th_set_tstate, !th_set_tvm, N.eqb_refl. destruct (N.eqb_spec x t); reflexivity. }
+  rewrite EthW, N.eqb_refl. prj. rewrite Ew.
+  change (tpool sW) with (tpool s). rewrite (memb_true _ _ Hc). cbn [negb].
+  rewrite EthW. destruct (N.eqb_spec c t) as [E|_]; [congruence|]. rewrite Hnc, N.eqb_refl. cbv zeta.
+  change (set_waitfor t None (set_notify c None sW)) with (s3_of t c s).
+  rewrite !th_s3_of by exact Htc. rewrite N.eqb_refl. prj.
+  destruct (N.eqb_spec c t); [congruence|]. rewrite th_s3_of by exact Htc.
+  destruct (N.eqb_spec c t); [congruence|]. rewrite N.eqb_refl. prj. rewrite Hcv. reflexivity.
+Qed.
+
+Theorem delete_thread_ok sc cl : forall f t s,
+  Dinv sc cl s -> healthy s t -> anc cl s t -> (4 * hcount s + 4 <= f)%nat ->
+  DTpost sc cl t s (delete_thread f t s).
+Proof.
+  induction f as [f IH] using (well_founded_induction lt_wf).
+  intros t s H Ht Hanc Hf.
+  pose proof (hcount_pos s t Ht) as Hpos.
+  destruct f as [|[|[|[|g]]]]; try lia.
+  pose proof Ht as [Hin Hv].
+  rewrite delete_thread_unfold. rewrite (memb_true _ _ Hin). cbn [negb]. cbv zeta. rewrite Hv.
+  (* phase B *)
+  assert (HB : exists sB,
+            match t_state (th s t) with
+            | TTiming => remove_timing t (set_tstate t TRunning (set_tvm t false s))
+            | TWaiting => cancel_waiting_all (S (S (S g))) t (set_tstate t TRunning (set_tvm t false s))
+            | TRunning => set_tvm t false s
+            end = sB /\ Bpost sc cl t s sB).
+  { pose proof (dinv_set_tvm_false sc cl s t H) as HA.
+    assert (HuA : t_vm (th (set_tvm t false s) t) = false) by (rewrite th_set_tvm, N.eqb_refl; reflexivity).
+    destruct (t_state (th s t)) eqn:Ets.
+    - (* running *)
+      eexists. split; [reflexivity|].
+      assert (Hw : t_waitfor (th s t) = None).
+      { destruct (t_waitfor (th s t)) as [c|] eqn:Ew; [|reflexivity].
+        destruct (d_wf _ _ _ H t c Ht Ew) as (_ & _ & Hs & _). congruence. }
+      apply bpost_simple; try assumption; try reflexivity.
+      + unfold ctl_eq; repeat split; reflexivity.
+      + intros x Hx. rewrite th_set_tvm. destruct (N.eqb_spec x t); [congruence|reflexivity].
+      + rewrite th_set_tvm, N.eqb_refl. exact Hw.
+      + rewrite th_set_tvm, N.eqb_refl. reflexivity.
+      + apply incl_refl.
+      + intro Hx. apply in_map_iff in Hx. destruct Hx as [e [E He]].
+        destruct (d_tm _ _ _ H e He) as [_ Hs]. rewrite E in Hs. congruence.
+    - (* timing *)
+      eexists. split; [reflexivity|].
+      assert (Hw : t_waitfor (th s t) = None).
+      { destruct (t_waitfor (th s t)) as [c|] eqn:Ew; [|reflexivity].
+        destruct (d_wf _ _ _ H t c Ht Ew) as (_ & _ & Hs & _). congruence. }
+      apply bpost_simple; try assumption; try reflexivity.
+      + apply dinv_untime; assumption.
+      + unfold ctl_eq; repeat split; reflexivity.
+      + intros x Hx. rewrite th_remove_timing, th_set_tstate, !th_set_tvm. destruct (N.eqb_spec x t); [congruence|reflexivity].
+      + rewrite th_remove_timing, th_set_tstate, N.eqb_refl. prj. exact HuA.
+      + rewrite th_remove_timing, th_set_tstate, N.eqb_refl. prj. rewrite th_set_tvm, N.eqb_refl. exact Hw.
+      + rewrite th_remove_timing, th_set_tstate, N.eqb_refl. prj. rewrite th_set_tvm, N.eqb_refl. reflexivity.
+      + intros e He. eapply in_rm_elems. exact He.
+      + apply rm_elems_notin. exact (d_tmnd _ _ _ H).
+    - (* waiting *)
+      destruct (t_waitfor (th s t)) as [c|] eqn:Ew.
+      + (* the awaited thread dies with t *)
+        destruct (s3_ready sc cl t c s H Ht Hanc Ets Ew) as (Htc & Hclc & Hsc & Hc & Hnc & Hcv & H3 & Hc3 & Hanc3 & Eh3).
+        rewrite (cancel_step (S (S g)) t c s Htc Ew Hc Hnc Hcv).
+        eexists. split; [reflexivity|].
+        apply bpost_cascade with c; try assumption.
+        apply IH; try assumption; lia.
+      + (* it waits for nobody *)
+        rewrite cancel_none by (rewrite th_set_tstate, N.eqb_refl; prj; rewrite th_set_tvm, N.eqb_refl; exact Ew).
+        eexists. split; [reflexivity|].
+        assert (Hnel : ~ In t (map fst (elems (set_tvm t false s)))).
+        { intro Hx. apply in_map_iff in Hx. destruct Hx as [e [E He]].
+          destruct (d_tm _ _ _ H e He) as [_ Hs]. rewrite E in Hs. congruence. }
+        apply bpost_simple; try assumption; try reflexivity.
+        * apply dinv_unhealthy_running; assumption.
+        * unfold ctl_eq; repeat split; reflexivity.
+        * intros x Hx. rewrite th_set_tstate, !th_set_tvm. destruct (N.eqb_spec x t); [congruence|reflexivity].
+        * rewrite th_set_tstate, N.eqb_refl. prj. exact HuA.
+        * rewrite th_set_tstate, N.eqb_refl. prj. rewrite th_set_tvm, N.eqb_refl. exact Ew.
+        * rewrite th_set_tstate, N.eqb_refl. prj. rewrite th_set_tvm, N.eqb_refl. reflexivity.
+        * apply incl_refl. }
+  destruct HB as (sB & EB & B). rewrite EB.
+  pose proof (anc_after_b sc cl t s sB B Hanc) as HancB.
+  destruct (delete_thread_tail sc cl g t s sB H Ht B HancB) as [E T].
+  rewrite E. eapply dt_compose; eauto.
 Qed.
